@@ -26,6 +26,7 @@ THEOREMS = [
     "Aio.C14.urlfor_resolve_inverse_partial",
     "Aio.C14.glob_suffix",
     "Aio.C14.mask_match_ends_with_literal",
+    "Aio.C14.view_405_complete",
     "Aio.C14.frozen_refuses_mount",
     "Aio.C14.frozen_add_route_keeps_index",
     "Aio.C14.redirect_same_site",
@@ -40,7 +41,7 @@ RULE = ("route-table programs (add_route / add_static / add_subapp / add_domain,
         "slashes, swapped and percent-encoded segments, %2F %25 %252F %0A, non-ASCII digits, dot segments) plus random "
         "paths over the same alphabet; methods GET POST PUT HEAD DELETE OPTIONS; Host headers aimed at every Domain/MaskDomain rule of the table (an instance of the rule and its near misses: foreign or glued suffix, port, trailing dot, upper case, empty label, foreign prefix, line feed), each (rule, host) pair also judged directly; url_for on "
         "every dynamic template with values containing quoting-sensitive characters; normalize_path_middleware on "
-        "slash-heavy and //host-like paths for all flag combinations. Route-table HISTORIES: refused operations are interleaved (add_subapp / add_domain of the very sub-application that is mounted next, on a frozen application or with a bad prefix / domain; add_route / add_static / add_subapp / add_domain after the application was frozen) and every involved object is compared before/after the refusal; requests with every method on paths with dot segments and encoded dots (%2E) around each static and sub-application prefix, judged 404-vs-405 by the documented rule. A case is one (table, request) pair; distinct by content.")
+        "slash-heavy and //host-like paths for all flag combinations. Class-based views (add_view of generated View subclasses defining 0-3 standard methods, in main and sub-applications); the view is CALLED for a found view route and its answer observed; request methods additionally drawn from extension methods, other letter case, near misses and every token whose lower-case form names an attribute of View (REQUEST, _ITER, __AWAIT__, ...). Route-table HISTORIES: refused operations are interleaved (add_subapp / add_domain of the very sub-application that is mounted next, on a frozen application or with a bad prefix / domain; add_route / add_static / add_subapp / add_domain after the application was frozen) and every involved object is compared before/after the refusal; requests with every method on paths with dot segments and encoded dots (%2E) around each static and sub-application prefix, judged 404-vs-405 by the documented rule. A case is one (table, request) pair; distinct by content.")
 TRUSTED_BASE = [
     "yarl is not modelled: _requote_path(literal), _quote_path(value), URL.path_safe(request path) and str(URL(candidate)) are oracle columns taken from the real library per case",
     "os.path.normpath (StaticResource.resolve) is an oracle column",
@@ -79,6 +80,11 @@ def _lst(s):
     return "[" + ", ".join(str(ord(c)) for c in s) + "]"
 
 
+def meth_all():
+    from aiohttp import hdrs
+    return sorted(hdrs.METH_ALL)
+
+
 def generate(repo):
     from aiohttp.web_urldispatcher import DynamicResource
     good = DynamicResource.GOOD
@@ -94,6 +100,8 @@ def generate(repo):
             f"def goodText : List Nat := {_lst(good)}\n"
             "/-- (regex text of a variable, code-point ranges of its character class as matched by `re`, minimal length) -/\n"
             "def classTable : List (List Nat × List (Nat × Nat) × Nat) := [\n" + ",\n".join(rows) + "]\n"
+            "/-- `hdrs.METH_ALL`, sorted -/\n"
+            "def methAll : List (List Nat) := [" + ", ".join(_lst(m) for m in meth_all()) + "]\n"
             "end Aio.Gen.C14\n"}
 
 
@@ -105,6 +113,35 @@ BAD_TEMPLATES = ["/{x", "/x}", "/{1x}", "/{x}/{x}", "/{x:}", "noslash", "/{x y}"
                  "/{x:a\nb}"]
 METHODS_REG = ["GET", "POST", "PUT", "*", "HEAD"]
 METHODS_REQ = ["GET", "POST", "PUT", "HEAD", "DELETE", "OPTIONS"]
+VIEW_METHODS = ["GET", "POST", "PUT", "DELETE", "PATCH", "HEAD", "OPTIONS", "TRACE", "CONNECT"]
+# extension methods, other letter case, near misses: any RFC 9110 token is a syntactically valid method
+METHODS_EXT = ["PROPFIND", "PURGE", "QUERY", "M-SEARCH", "Get", "get", "gEt", "pOST", "Post", "PATCH", "TRACE", "CONNECT",
+               "*", "GETX", "GE", "G.T", "X_Y", "~", "!#$%&'*+-.^_`|~", "0", "İ", "ſ"]
+_METHODS_ATTR = []
+
+
+def methods_from_attributes():
+    """method tokens whose lower-case form names an attribute of View / a view instance (request, _iter, __await__, …)"""
+    if not _METHODS_ATTR:
+        from aiohttp import web
+        from aiohttp.web_urldispatcher import HTTP_METHOD_RE
+        names = set(dir(web.View)) | {"request", "_request"}
+        _METHODS_ATTR.extend(sorted(n.upper() for n in names if HTTP_METHOD_RE.match(n.upper()) and n.upper().lower() == n))
+    return _METHODS_ATTR
+
+
+def has_view(ops):
+    return any(op[0] == "V" or (op[0] in ("SUB", "DOM") and has_view(op[2])) for op in ops)
+
+
+def gen_method(rng, views):
+    r = rng.random()
+    if r < (0.45 if views else 0.85):
+        return rng.choice(METHODS_REQ)
+    if r < (0.75 if views else 0.93):
+        return rng.choice(METHODS_EXT)
+    return rng.choice(methods_from_attributes())
+
 DOMAINS = ["a.example", "b.example", "*.b.example", "a.example:8080", "*.b.example:8080", "a.*", "a.*.example", "A.Example."]
 HOSTS = [None, "a.example", "A.EXAMPLE", "b.example", "x.b.example", "", "c.example"]
 PREFIXES = ["/p", "/a", "/p/", "/p/q", "/a b", "/ab", "/x.y", "/a+b"]
@@ -148,7 +185,17 @@ def gen_ops(rng, hg, depth, maxops=5):
         if r < 0.72 or depth <= 0:
             # re-use templates of the pool so that shadowing / same-path resources are common
             path = rng.choice(pool) if rng.random() < 0.5 else gen_template(rng)
-            ops.append(("R", rng.choice(METHODS_REG), path, hg.next()))
+            if ops and ops[-1][0] == "R" and "{" in ops[-1][2] and rng.random() < 0.2:
+                # same template as the resource added last, constraints dropped / added / variable renamed: a new
+                # resource, NOT a further route of the last one (add_resource re-uses only the identical template)
+                prev = ops[-1][2]
+                path = rng.choice([re.sub(r":[^{}]+\}", "}", prev), re.sub(r"\{(\w+)\}", r"{\1:\\d+}", prev, count=1),
+                                   re.sub(r"\{x\b", "{y", prev) if "{y" not in prev else prev, prev + "/", prev.rstrip("/") or "/"])
+            if rng.random() < 0.12:
+                # class-based view (add_view): route method '*', the class decides which methods it serves
+                ops.append(("V", path, hg.next(16), tuple(sorted(rng.sample(VIEW_METHODS, rng.randint(0, 3))))))
+            else:
+                ops.append(("R", rng.choice(METHODS_REG), path, hg.next()))
         elif r < 0.80:
             ops.append(("S", rng.choice(PREFIXES + ["/s", "/s/", "/"]), hg.next(2)))
         elif r < 0.93:
@@ -183,6 +230,8 @@ def renumber(ops, hg):
     for op in ops:
         if op[0] == "R":
             out.append(("R", op[1], op[2], hg.next()))
+        elif op[0] == "V":
+            out.append(("V", op[1], hg.next(16), tuple(op[3])))
         elif op[0] == "S":
             out.append(("S", op[1], hg.next(2)))
         elif op[0] in ("SUB", "DOM"):
@@ -210,6 +259,37 @@ def _mk_handler(hid):
         return None
     handler._hid = hid
     return handler
+
+
+def _mk_view(hid, defined):
+    from aiohttp import web
+
+    def mk(name):
+        async def meth(self):
+            return ("called", name)
+        return meth
+    ns = {m.lower(): mk(m) for m in defined}
+    ns["_hid"] = hid
+    ns["_is_view"] = True
+    return type("GenView", (web.View,), ns)
+
+
+async def _call_view(cls, req):
+    """what the client gets from a class-based view: the handler's answer or the exception it raises"""
+    from aiohttp import web
+    try:
+        r = await cls(req)
+    except web.HTTPMethodNotAllowed as e:
+        return "405:" + ",".join(st(m) for m in sorted(set(e.allowed_methods), key=lambda x: [ord(c) for c in x]))
+    except web.HTTPException as e:
+        return f"E_OTHER(status{e.status})"
+    except BaseException as e:
+        if isinstance(e, (KeyboardInterrupt, SystemExit)):
+            raise
+        return f"E_OTHER({type(e).__name__})"
+    if isinstance(r, tuple) and r and r[0] == "called" and r[1] in meth_all():
+        return 1 + meth_all().index(r[1])
+    return "E_OTHER(unexpected-return)"
 
 
 class Built:
@@ -303,10 +383,17 @@ def build_real(ops, built, app=None, top=False):
             if top and not app.frozen:
                 app.freeze()
                 built.tokens.append("F")
-        elif op[0] == "R":
-            _, method, path, hid = op
+        elif op[0] in ("R", "V"):
+            if op[0] == "V":
+                _, path, hid, defined = op
+                method = "*"
+                tok = "V|" + st(path) + "|" + str(hid) + "|" + (",".join(st(m) for m in defined) or "~")
+                handler = _mk_view(hid, defined)
+            else:
+                _, method, path, hid = op
+                tok = "R|" + st(method) + "|" + st(path) + "|" + str(hid)
+                handler = _mk_handler(hid)
             lits = ROUTE_RE.split(path)
-            tok = "R|" + st(method) + "|" + st(path) + "|" + str(hid)
             seen = set()
             for l in lits:
                 if l in seen:
@@ -319,7 +406,7 @@ def build_real(ops, built, app=None, top=False):
             built.tokens.append(tok)
             before = _snapshot([app])
             try:
-                app.router.add_route(method, path, _mk_handler(hid))
+                app.router.add_route(method, path, handler)     # add_view(path, cls) = add_route("*", path, cls)
                 code = "ok"
             except Exception as e:
                 code = _exc_code(e)
@@ -485,6 +572,8 @@ def all_templates(ops, prefix=""):
     for op in ops:
         if op[0] == "R":
             yield prefix + op[2]
+        elif op[0] == "V":
+            yield prefix + op[1]
         elif op[0] == "S":
             yield prefix + op[1].rstrip("/") + "/" + "f"
         elif op[0] == "SUB":
@@ -570,6 +659,7 @@ def all_prefixes(ops, prefix=""):
 def gen_requests(rng, ops, n):
     doms = list(all_domains(ops))
     pfxs = [p for _, p in all_prefixes(ops) if p.startswith("/")]
+    views = has_view(ops)
     temps = [t for t in all_templates(ops) if t.startswith("/")] or ["/"]
     out = []
     for _ in range(n):
@@ -589,7 +679,7 @@ def gen_requests(rng, ops, n):
             host = host_variants(rng, rng.choice(doms))
         else:
             host = rng.choice(HOSTS) if rng.random() < 0.6 else "a.example"
-        out.append((rng.choice(METHODS_REQ), p, host))
+        out.append((gen_method(rng, views), p, host))
     return out
 
 
@@ -674,11 +764,18 @@ def _skip_attempt_codes(op, codes):
         next(codes)
 
 
-def spec_table(ops, codes, prefix=""):
-    """flatten a program (only the ops that the implementation accepted) into spec resources"""
+def spec_table(ops, codes, prefix="", views=None):
+    """flatten a program (only the ops that the implementation accepted) into spec resources;
+    `views` collects {handler id: methods the class defines} of the class-based views"""
     out = []
     for op in ops:
-        if op[0] == "R":
+        if op[0] == "V":
+            code = next(codes)
+            if code == "ok":
+                out.append(SpecRes("route", prefix, op[1], [("*", op[2])], len(out)))
+                if views is not None:
+                    views[op[2]] = set(op[3])
+        elif op[0] == "R":
             code = next(codes)
             if code == "ok":
                 out.append(SpecRes("route", prefix, op[2], [(op[1], op[3])], len(out)))
@@ -689,13 +786,13 @@ def spec_table(ops, codes, prefix=""):
                 out.append(SpecRes("static", prefix, p, [("GET", op[2]), ("HEAD", op[2] + 1)], len(out)))
         elif op[0] == "SUB":
             p = op[1].rstrip("/")
-            sub = spec_table(op[2], codes, prefix + p)
+            sub = spec_table(op[2], codes, prefix + p, views)
             _skip_attempt_codes(op, codes)
             code = next(codes)
             if code == "ok":
                 out.append(SpecRes("sub", prefix, p, [], len(out), sub=sub))
         elif op[0] == "DOM":
-            sub = spec_table(op[2], codes, prefix)
+            sub = spec_table(op[2], codes, prefix, views)
             _skip_attempt_codes(op, codes)
             code = next(codes)
             if code == "ok":
@@ -770,6 +867,17 @@ def table_has_static(table):
     return any(r.kind == "static" or (r.sub is not None and table_has_static(r.sub)) for r in table)
 
 
+def spec_after_view(res, views, method):
+    """a class-based view serves exactly the standard methods its class defines; for any other method token the
+    answer is 405 with those methods as the Allow set (what a resource with function routes for them answers)"""
+    if res[0] == "ok" and res[1] in views:
+        defined = views[res[1]] & set(meth_all())
+        if method in defined:
+            return ("ok", res[1] + 1 + meth_all().index(method), res[2])
+        return ("405", defined)
+    return res
+
+
 def canon_spec(res):
     if res[0] == "ok":
         items = sorted(res[2].items(), key=lambda kv: [ord(c) for c in kv[0]])
@@ -786,8 +894,11 @@ def has_dot_segment(path):
 def judge_resolution(ctx, ops, codes, req, impl, path_safe):
     """direct oracle for one request: the real answer against the documented rule"""
     method, raw, host = req
-    table = spec_table(ops, iter(codes))
-    want = canon_spec(spec_resolve(table, path_safe, method, host))
+    views = {}
+    table = spec_table(ops, iter(codes), views=views)
+    pre = spec_resolve(table, path_safe, method, host)
+    is_view = pre[0] == "ok" and pre[1] in views
+    want = canon_spec(spec_after_view(pre, views, method))
     dots = has_dot_segment(path_safe)
     if dots and table_has_static(table):
         ctx.hit("oracle:dot-segment-with-static-judged:" + impl[:3])
@@ -795,9 +906,15 @@ def judge_resolution(ctx, ops, codes, req, impl, path_safe):
         return
     case = {"kind": "resolve", "ops": ops, "req": [method, raw, host]}
     skipped = []
-    if canon_spec(spec_resolve(table, path_safe, method, host, skipped)) == impl and skipped:
+    if canon_spec(spec_after_view(spec_resolve(table, path_safe, method, host, skipped), views, method)) == impl and skipped:
         kind = {"route": "dynamic", "static": "static", "sub": "subapp"}[skipped[0]]
         sig = f"C14/resolve/quoted-literal-unmatched/{kind}"
+    elif is_view and impl.startswith("E_"):
+        sig = "C14/view/unserved-method-raised"
+    elif is_view and want.startswith("405") and impl.startswith("ok"):
+        sig = "C14/view/unserved-method-called"
+    elif is_view:
+        sig = "C14/view/answer-differs"
     elif impl.startswith("E_"):
         sig = "C14/resolve/unexpected-result"
     elif want.startswith("ok") and not impl.startswith("ok"):
@@ -871,6 +988,13 @@ def run_program(ctx, loop, ops, reqs, want_model=True):
         try:
             mi = loop.run_until_complete(app.router.resolve(req))
             c = canon_match(built, mi)
+            if mi.http_exception is None and getattr(mi.route.handler, "_is_view", False):
+                v = loop.run_until_complete(_call_view(mi.route.handler, req))
+                if isinstance(v, int):
+                    head, _, rest = c.partition(":")[2].partition(":")
+                    c = f"ok:{int(head) + v}:{rest}"
+                else:
+                    c = v
         except Exception as e:  # resolution must never raise
             c = f"E_OTHER({type(e).__name__})"
         results.append((c, ps))
@@ -1180,6 +1304,12 @@ def fixed_programs():
         [("DOM", "a.example", [("R", "GET", "/a", 0)], [("f", "/old"), ("fd", "*.b.example")]), ("R", "GET", "/a", 1)],
         [("R", "GET", "/a", 0), ("FREEZE",), ("R", "POST", "/a", 1), ("R", "GET", "/b", 2), ("S", "/s", 3),
          ("SUB", "/p", [("R", "GET", "/x", 5)]), ("DOM", "a.example", [("R", "GET", "/a", 6)])],
+        # consecutive registrations of one template with and without a constraint are two resources
+        [("R", "GET", "/f/{x:\\d+}", 0), ("R", "PUT", "/f/{x}", 1), ("R", "POST", "/g/{x}", 2), ("R", "PUT", "/g/{x:[ab]+}", 3)],
+        # class-based views: 405 with the served methods for every other method token
+        [("V", "/view", 0, ("GET", "POST")), ("R", "GET", "/fn", 16), ("R", "POST", "/fn", 17),
+         ("SUB", "/api", [("V", "/view", 18, ("GET", "POST")), ("V", "/{x}", 34, ())])],
+        [("V", "/a/{x}", 0, ("DELETE", "HEAD", "TRACE")), ("R", "PUT", "/a/{x}", 16), ("V", "/{tail:.*}", 17, ("CONNECT",))],
         # 404 vs 405 when a path starts with a static prefix but normalises out of it
         [("S", "/static", 0), ("R", "GET", "/about", 2)],
         [("SUB", "/p", [("S", "/s", 0), ("R", "POST", "/x", 2)]), ("R", "GET", "/{tail:.*}", 3)],
@@ -1222,7 +1352,9 @@ def _tup(x):
 def _ops_from_json(ops):
     out = []
     for op in ops:
-        if op[0] in ("SUB", "DOM"):
+        if op[0] == "V":
+            out.append(("V", op[1], op[2], tuple(op[3])))
+        elif op[0] in ("SUB", "DOM"):
             out.append((op[0], op[1], _ops_from_json(op[2]), [tuple(a) for a in (op[3] if len(op) > 3 else [])]))
         else:
             out.append(tuple(op))
